@@ -1,6 +1,7 @@
 import RV.C06.Lemmas
 import RV.C06.Fresh
 import RV.C06.PatchLemmas
+import RV.C06.CG
 /-
   C06 — property theorems (statements first, as `def … : Prop`, then the proofs).
 
@@ -60,29 +61,18 @@ def Statement_patch_disjoint : Prop :=
 def Statement_patch_rows_roundtrip : Prop :=
   ∀ (r : PRow), readRow (writeRow r) = r ∧ ((writeRow r).2.2 = Spell.unnamed ↔ r.2.2 = Name.default)
 
+/-- ConjunctiveGraph sources.  A ConjunctiveGraph's default context is a graph of the store identified by a
+    blank node.  N-Quads and TriX write it under that name: the store's quads come back literally
+    (`lit`).  TriG, hext and JSON-LD write it as THE default graph: its quads come back in the default
+    graph of the receiving Dataset, everything else where it was (`asDefault`). -/
+def Statement_cg_roundtrip : Prop :=
+  ∀ (s : Src), CgWF s → ∀ fresh : Nat,
+    (Iso s.d (route .nquads (emit .nquads s) fresh) ∧ Iso s.d (route .trix (emit .trix s) fresh)) ∧
+    (Iso (s.d.map (toDs s.dflt)) (route .trig (emit .trig s) fresh) ∧
+     Iso (s.d.map (toDs s.dflt)) (route .hext (emit .hext s) fresh) ∧
+     Iso (s.d.map (toDs s.dflt)) (route .jsonld (emit .jsonld s) fresh))
+
 /-! ### Proofs -/
-
-theorem mapTerm_id (t : Term) : mapTerm id t = t := by cases t <;> rfl
-theorem mapName_id (g : Name) : mapName id g = g := by cases g <;> rfl
-theorem mapQuad_id (q : Quad) : mapQuad id q = q := by
-  obtain ⟨⟨a, b, c⟩, g⟩ := q
-  simp [mapQuad, mapTriple, mapTerm_id, mapName_id]
-
-theorem map_mapQuad_id (d : List Quad) : d.map (mapQuad id) = d := by
-  induction d with
-  | nil => rfl
-  | cons q qs ih => rw [List.map_cons, ih, mapQuad_id]
-
-theorem setEq_stmts_emit (F : Fmt) {s : Src} (h : DsWF s) : SetEq (stmts (emit F s)) s.d := by
-  rintro ⟨t, g⟩
-  exact stmts_emit F h t g
-
-theorem setEq_map {a b : List Quad} (g : Quad → Quad) (h : SetEq a b) : SetEq (a.map g) (b.map g) := by
-  intro x
-  simp only [List.mem_map]
-  constructor
-  · rintro ⟨y, hy, rfl⟩; exact ⟨y, (h y).mp hy, rfl⟩
-  · rintro ⟨y, hy, rfl⟩; exact ⟨y, (h y).mpr hy, rfl⟩
 
 theorem iso_fresh (gFirst : Bool) (F : Fmt) {s : Src} (h : DsWF s) (fresh : Nat) :
     Iso s.d (routeFresh gFirst (emit F s) fresh) := by
@@ -101,6 +91,24 @@ theorem quad_roundtrip (F : Fmt) : Statement_quad_roundtrip F := by
   · exact iso_verbatim .hext h
   · exact iso_verbatim .jsonld h
   · exact iso_verbatim .patch h
+
+theorem iso_of_stmts {d : List Quad} {bs : List Block} (h : ∀ t g, (t, g) ∈ stmts bs ↔ (t, g) ∈ d) :
+    (∀ gFirst fresh, Iso d (routeFresh gFirst bs fresh)) ∧ Iso d (routeVerbatim bs) := by
+  have hs : SetEq d (stmts bs) := by rintro ⟨t, g⟩; exact (h t g).symm
+  constructor
+  · intro gFirst fresh
+    obtain ⟨f, hf, e⟩ := routeFresh_eq gFirst bs fresh
+    exact ⟨f, hf, e ▸ setEq_map _ hs⟩
+  · exact ⟨id, fun _ _ e => e, by rw [map_mapQuad_id]; exact hs⟩
+
+theorem cg_roundtrip : Statement_cg_roundtrip := by
+  intro s h fresh
+  refine ⟨⟨?_, ?_⟩, ?_, ?_, ?_⟩
+  · exact (iso_of_stmts (stmts_emitNQuads_lit h.covers)).1 false fresh
+  · exact (iso_of_stmts (stmts_emitTrix_lit h.covers)).2
+  · exact (iso_of_stmts (stmts_emitTrig_cg h.covers)).1 true fresh
+  · exact (iso_of_stmts (stmts_emitHext_cg h.covers)).2
+  · exact (iso_of_stmts (stmts_emitJsonld_cg h)).2
 
 theorem each_triple_one_block (F : Fmt) : Statement_each_triple_one_block F := by
   intro s h t g
@@ -177,6 +185,17 @@ example : diff exSrc.d [((.iri 1, .iri 7, .lit 2), .iri 4), ((.iri 5, .iri 7, .l
     [(.add, ((.iri 5, .iri 7, .lit 2), .bnode 1)), (.del, ((.iri 1, .iri 7, .lit 2), .default)),
      (.del, ((.bnode 1, .iri 7, .bnode 2), .bnode 1)), (.del, ((.iri 1, .iri 8, .bnode 1), .default)),
      (.del, ((.bnode 2, .iri 7, .lit 3), .iri 4))] := by decide
+
+/-- a ConjunctiveGraph with a non-empty default context (blank node 99), an IRI-named and a blank-node-named graph -/
+def exCg : Src :=
+  { cg := true, dflt := .bnode 99, cs := [.bnode 99, .iri 4, .bnode 1],
+    d := [((.iri 1, .iri 7, .lit 2), .bnode 99), ((.iri 1, .iri 7, .lit 2), .iri 4),
+          ((.bnode 1, .iri 7, .bnode 2), .bnode 1)] }
+
+example : CgWF exCg := ⟨rfl, rfl, by unfold Covers; decide⟩
+example : (emit .trig exCg).map (·.spell) = [.unnamed, .named (.iri 4), .named (.bnode 1)] := by decide
+example : (emit .nquads exCg).map (·.spell) = [.named (.bnode 99), .named (.iri 4), .named (.bnode 1)] := by decide
+example : (emit .jsonld exCg).map (·.spell) = [.unnamed, .named (.iri 4), .named (.bnode 1)] := by decide
 
 /-! ### The defects of the pinned code (before the `fix:` commits), kept as regression witnesses -/
 
